@@ -1,5 +1,7 @@
 (* C20 - property theorems: a port scan is reported once, listing exactly the ports probed.
-   Model: C20/Model.v (unique-set.go, knock.go, the knockChan sends of canary_linux.go). *)
+   Model: C20/Model.v (unique-set.go, knock.go, the knockChan sends of canary_linux.go, as
+   repaired: Each iterates over a copy; the TCP knock is queued where a SYN is handled; UDP
+   groups carry ProtocolUDP). *)
 From HT Require Import Common.Bytes C20.Model C20.Check C20.Proofs.
 Open Scope Z_scope.
 
@@ -25,162 +27,107 @@ Theorem C20_uset_add_count : forall A (eqf : A -> A -> bool) (x : A) (s : list A
   length (snd (uadd eqf x s)) = if existsb (eqf x) s then length s else S (length s).
 Proof. exact uadd_count. Qed.
 
-(* Each without removal visits every member exactly once, in order, and changes nothing *)
-Theorem C20_uset_each_visits_each_member_once : forall A (idf : A -> N) (s : list A),
-  each_rm idf (fun _ => false) s = (map Some s, s).
-Proof. exact each_norm. Qed.
+(* Each visits every member exactly once, in order - whatever the callback removes *)
+Theorem C20_uset_each_visits_each_member_once : forall A (idf : A -> N) rm (s : list A),
+  fst (each_rm idf rm s) = s.
+Proof. exact each_rm_visits. Qed.
 
-(* Each never invents or resurrects members: what is left is the set minus some removals *)
+(* Each never invents or resurrects members: what is left is the set minus the removals *)
 Theorem C20_uset_each_only_removes : forall A (idf : A -> N) rm (s : list A),
-  exists xs, snd (each_rm idf rm s) = fold_left (fun l x => uremove idf x l) xs s.
+  snd (each_rm idf rm s) = fold_left (fun l x => uremove idf x l) (filter rm s) s.
 Proof. exact each_rm_removes. Qed.
 
-(* Each with removal of visited members is exact for sets of at most two members:
-   every member visited once, exactly the members to be removed are removed *)
-Theorem C20_uset_each_remove_exact_le2 : forall A (idf : A -> N) rm (s : list A),
-  (length s <= 2)%nat -> NoDup (map idf s) ->
-  each_rm idf rm s = (map Some s, filter (fun x => negb (rm x)) s).
-Proof. exact each_rm_le2. Qed.
-
-(* ... and wrong for EVERY set of three or more members when each visited member is removed
-   (what the detector's tick does): the second member is skipped.  Defect (a). *)
-Theorem C20_uset_each_remove_wrong_ge3 : forall A (idf : A -> N) (s : list A),
-  (3 <= length s)%nat -> NoDup (map idf s) ->
-  fst (each_rm idf (fun _ => true) s) <> map Some s.
-Proof. exact (@each_rm_ge3_wrong). Qed.
-
-Theorem C20_uset_each_remove_refuted :
-  exists s : list N, NoDup s /\
-    each_rm (fun x => x) (fun _ => true) s = ([Some 1; Some 3; Some 3]%N, [2%N]) /\ s = [1; 2; 3]%N.
-Proof. exact each_rm_refuted. Qed.
+(* Each with removal of visited members is exact for sets of ANY size: every member visited
+   once, exactly the members to be removed are removed *)
+Theorem C20_uset_each_remove_exact : forall A (idf : A -> N) rm (s : list A),
+  NoDup (map idf s) ->
+  each_rm idf rm s = (s, filter (fun x => negb (rm x)) s).
+Proof. exact each_rm_exact. Qed.
 
 (* ---------------------------------------------------------------- the detector *)
 
-(* for every sequence of UDP/ICMP knocks, from any number of sources in any interleaving and
-   at any times: there is exactly one group per (protocol group, source, destination)
-   knocked, and its port list holds exactly the distinct protocol/port pairs knocked for
-   it, each once *)
+(* for every sequence of knocks - TCP, UDP, ICMP, from any number of sources in any
+   interleaving and at any times: there is exactly one group per (protocol, source,
+   destination) knocked, and its port list holds exactly the distinct protocol/port pairs
+   knocked for it, each once *)
 Theorem C20_groups_exact : forall kts,
-  Forall (fun kt => k_kind (fst kt) <> KTcp) kts ->
   groups_exact (map fst kts) (d_groups (run_knocks kts det0)).
 Proof. exact run_knocks_exact. Qed.
 
-(* the full statement: a burst (all knocks within [0, tmax]) followed by the first tick at
-   least 5 s later reports every group exactly once with exactly its ports, and the next
-   tick reports nothing *)
+(* the full statement: a burst (all knocks within [0, tmax]) of any number of simultaneous
+   groups, followed by the first tick at least 5 s later, reports every group exactly once
+   with exactly its ports, removes it, and the next tick reports nothing *)
 Definition C20_full : Prop :=
   forall kts tmax now later,
-  Forall (fun kt => k_kind (fst kt) <> KTcp) kts ->
   Forall (fun kt => 0 <= snd kt <= tmax) kts ->
   tmax + 5000 <= now < 60000 ->
   exists gs n,
     groups_exact (map fst kts) gs /\
     run (map (fun kt => DKnock (fst kt) (snd kt)) kts ++ [DTick now; DTick later]) det0
-      = Some ([map report_of gs; []], mkDet [] n).
+      = ([map report_of gs; []], mkDet [] n).
 
-(* it holds whenever at most two groups are due in the same tick ... *)
-Theorem C20_scan_reported_once_le2 : forall kts tmax now later,
-  Forall (fun kt => k_kind (fst kt) <> KTcp) kts ->
-  Forall (fun kt => 0 <= snd kt <= tmax) kts ->
-  tmax + 5000 <= now < 60000 ->
-  at_most_two_keys (map fst kts) ->
-  exists gs n,
-    groups_exact (map fst kts) gs /\
-    run (map (fun kt => DKnock (fst kt) (snd kt)) kts ++ [DTick now; DTick later]) det0
-      = Some ([map report_of gs; []], mkDet [] n).
-Proof. exact scan_le2. Qed.
+Theorem C20_scan_reported_once : C20_full.
+Proof. exact scan_full. Qed.
 
-(* ... and fails with three: one UDP probe from each of three sources is reported as
-   source 1, source 3, source 3, and source 2 only one tick later.  Defect (a). *)
-Theorem C20_scan_reported_once_refuted : ~ C20_full.
-Proof. exact scan_full_refuted. Qed.
-
-(* outside the defect: once Each iterates over a copy of the slice
-   (fixes/C20-each-iterates-over-copy.patch) the statement holds for any number of groups *)
-Theorem C20_scan_reported_once_with_each_over_copy : forall kts tmax now later,
-  Forall (fun kt => k_kind (fst kt) <> KTcp) kts ->
-  Forall (fun kt => 0 <= snd kt <= tmax) kts ->
-  tmax + 5000 <= now < 60000 ->
-  exists gs n,
-    groups_exact (map fst kts) gs /\
-    run_with tick_repaired (map (fun kt => DKnock (fst kt) (snd kt)) kts ++ [DTick now; DTick later]) det0
-      = Some ([map report_of gs; []], mkDet [] n).
-Proof. exact scan_repaired. Qed.
-
-Theorem C20_three_sources_witness :
-  run (map (fun kt => DKnock (fst kt) (snd kt)) wit_kts ++ [DTick 5000; DTick 10000; DTick 15000]) det0
-  = Some ([[wit_rep 0; wit_rep 2; wit_rep 2]; [wit_rep 1]; []], mkDet [] 3%N).
-Proof. exact wit_run. Qed.
-
-(* although Remove writes nil into the array Each iterates over, no callback ever receives nil:
-   the detector goroutine cannot panic in the tick, for any history of knocks and ticks *)
-Theorem C20_uset_each_never_visits_nil : forall A (idf : A -> N) rm (s : list A),
-  Forall (fun o => o <> None) (fst (each_rm idf rm s)).
-Proof. exact each_rm_no_nil. Qed.
-
-Theorem C20_detector_never_panics : forall evs d, run evs d <> None.
-Proof. exact run_no_panic. Qed.
+(* any tick, any state with distinct group objects: exactly the due groups are reported, once
+   each and in order, and exactly the due groups younger than 60 s are removed *)
+Theorem C20_tick_reports_due_groups_once : forall now d,
+  NoDup (map g_id (d_groups d)) ->
+  tick now d = (map report_of (filter (due now) (d_groups d)),
+                mkDet (filter (fun g => negb (tick_rm now g)) (d_groups d)) (d_next d)).
+Proof. exact tick_general. Qed.
 
 (* the tick of a detector without groups reports nothing, however often it fires *)
 Theorem C20_idle_ticks_report_nothing : forall nows n,
-  run (map DTick nows) (mkDet [] n) = Some (map (fun _ => []) nows, mkDet [] n).
+  run (map DTick nows) (mkDet [] n) = (map (fun _ => []) nows, mkDet [] n).
 Proof. exact ticks_idle. Qed.
 
 (* ---------------------------------------------------------------- which frames knock *)
 
-(* no path through handleTCP reaches the KnockTCPPort send: whatever the connection state,
-   flags and acknowledgment number.  Defect (b): TCP probes are never reported. *)
-Theorem C20_tcp_knock_unreachable : forall i, tcp_queues_knock i = false.
-Proof. exact tcp_never. Qed.
+(* handleTCP queues a knock exactly for a parsable segment to one of our addresses, not on
+   port 22, with SYN, that either carries no ACK (a new state is always created - also for a
+   4-tuple that already has one - unless the table is full) or finds its state in Listen *)
+Theorem C20_tcp_knock_iff : forall i,
+  tcp_queues_knock i =
+  t_parse_ok i && t_is_me i && negb (t_port22 i) && t_syn i &&
+  (if t_ack i then match t_state i with Some SListen => true | _ => false end else t_table_ok i).
+Proof. exact tcp_knock_iff. Qed.
 
-Theorem C20_tcp_probes_never_reported : forall st ackok ps nows,
-  Forall (fun p => p_proto p = 0%N) ps ->
-  run (map (fun k => DKnock k 0) (flat_map (knocks_of_probe st ackok) ps) ++ map DTick nows) det0
-  = Some (map (fun _ => []) nows, det0).
-Proof. exact tcp_probes_silent. Qed.
+(* every connection attempt (SYN without ACK, port other than 22) is a knock, whatever state
+   its 4-tuple has *)
+Theorem C20_syn_probe_knocks : forall st ackok p,
+  p_proto p = 0%N -> flag (p_flags p) 1 = true -> flag (p_flags p) 4 = false -> p_port p <> 22%N ->
+  knocks_of_probe st ackok p = [mkKnock KTcp (src_mac (p_src p)) dst_mac (src_ip (p_src p)) dst_ip (p_port p)].
+Proof. exact syn_probe_knocks. Qed.
 
-(* latent defect (c), not observable while (b) stands: the hypothesis "no TCP knock" of
-   C20_groups_exact is needed - a UDP group has Protocol 0 = ProtocolTCP, so TCP knocks of the
-   same source would join it, and its equality function never matches a TCP knock *)
-Theorem C20_mixed_group_would_list_twice :
-  map report_of (d_groups (run_knocks wit_mixed det0)) =
-  [mkReport (src_mac 0) dst_mac (src_ip 0) dst_ip [(KUdp, 80%N); (KTcp, 80%N); (KTcp, 80%N)]].
-Proof. exact mixed_group_lists_twice. Qed.
+(* ---------------------------------------------------------------- non-vacuity / former witnesses *)
 
-(* non-vacuity: two sources, interleaved, repeated ports, UDP and ICMP: two reports in the
-   first tick with the distinct pairs, nothing afterwards *)
-Example C20_nonvacuous :
-  let a p := mkKnock KUdp (src_mac 0) dst_mac (src_ip 0) dst_ip p in
-  let b := mkKnock KIcmp (src_mac 1) dst_mac (src_ip 1) dst_ip 0%N in
-  let kts := [(a 7%N, 0); (b, 1); (a 9%N, 2); (a 7%N, 3); (b, 4)] in
-  Forall (fun kt => k_kind (fst kt) <> KTcp) kts /\ at_most_two_keys (map fst kts) /\
-  run (map (fun kt => DKnock (fst kt) (snd kt)) kts ++ [DTick 5004; DTick 10004]) det0
-  = Some ([[mkReport (src_mac 0) dst_mac (src_ip 0) dst_ip [(KUdp, 7%N); (KUdp, 9%N)];
-            mkReport (src_mac 1) dst_mac (src_ip 1) dst_ip [(KIcmp, 0%N)]]; []], mkDet [] 5%N).
-Proof.
-  cbv zeta. split; [repeat constructor; cbn; discriminate|]. split; [|vm_compute; reflexivity].
-  intros x y z Hx Hy Hz. cbn in Hx, Hy, Hz.
-  repeat (destruct Hx as [<-|Hx]; [|]); try contradiction;
-  repeat (destruct Hy as [<-|Hy]; [|]); try contradiction;
-  repeat (destruct Hz as [<-|Hz]; [|]); try contradiction; vm_compute; tauto.
-Qed.
+(* three sources at once (reported as 1, 3, 3 and 2 a tick late before the repair) *)
+Example C20_three_sources :
+  run (map (fun kt => DKnock (fst kt) (snd kt)) wit_kts ++ [DTick 5000; DTick 10000; DTick 15000]) det0
+  = ([[wit_rep 0; wit_rep 1; wit_rep 2]; []; []], mkDet [] 3%N).
+Proof. exact wit_run. Qed.
+
+(* UDP and TCP knocks of one source interleaved, repeated ports: two groups, no port twice *)
+Example C20_mixed_tcp_udp :
+  run (map (fun kt => DKnock (fst kt) (snd kt)) wit_mixed ++ [DTick 5004; DTick 10004]) det0
+  = ([[mkReport (src_mac 0) dst_mac (src_ip 0) dst_ip [(KUdp, 80%N)];
+       mkReport (src_mac 0) dst_mac (src_ip 0) dst_ip [(KTcp, 80%N); (KTcp, 443%N)]]; []], mkDet [] 5%N).
+Proof. exact wit_mixed_run. Qed.
+
+Example C20_each_remove_three :
+  each_rm (fun x : N => x) (fun _ => true) [1; 2; 3]%N = ([1; 2; 3]%N, []).
+Proof. exact each_rm_three. Qed.
 
 Print Assumptions C20_uset_add_returns_representative.
 Print Assumptions C20_uset_pairwise_distinct.
 Print Assumptions C20_uset_add_count.
 Print Assumptions C20_uset_each_visits_each_member_once.
 Print Assumptions C20_uset_each_only_removes.
-Print Assumptions C20_uset_each_remove_exact_le2.
-Print Assumptions C20_uset_each_remove_wrong_ge3.
-Print Assumptions C20_uset_each_remove_refuted.
+Print Assumptions C20_uset_each_remove_exact.
 Print Assumptions C20_groups_exact.
-Print Assumptions C20_scan_reported_once_le2.
-Print Assumptions C20_scan_reported_once_refuted.
-Print Assumptions C20_scan_reported_once_with_each_over_copy.
-Print Assumptions C20_three_sources_witness.
-Print Assumptions C20_uset_each_never_visits_nil.
-Print Assumptions C20_detector_never_panics.
+Print Assumptions C20_scan_reported_once.
+Print Assumptions C20_tick_reports_due_groups_once.
 Print Assumptions C20_idle_ticks_report_nothing.
-Print Assumptions C20_tcp_knock_unreachable.
-Print Assumptions C20_tcp_probes_never_reported.
-Print Assumptions C20_mixed_group_would_list_twice.
+Print Assumptions C20_tcp_knock_iff.
+Print Assumptions C20_syn_probe_knocks.
